@@ -579,6 +579,18 @@ impl Runner {
     }
 
     fn req(&mut self, cmd: Sx, what: &str) -> Result<Sx, ()> {
+        // "busy" (the child saw no rest within 60 s) without any panic on stderr is retried twice: on a
+        // machine under heavy load background flushes can take that long; a dead flush thread panics
+        if what == "quiesce" {
+            for _ in 0..2 {
+                let p = self.proc_.as_mut().unwrap();
+                match p.request_quick_hang(&cmd, DEADLINE, GRACE) {
+                    Reply::Ok(s) if s.tag() == "busy" && p.first_panic().is_none() => continue,
+                    Reply::Ok(s) if s.tag() == "ok" => return Ok(s),
+                    _ => break,
+                }
+            }
+        }
         let p = self.proc_.as_mut().unwrap();
         match p.request_quick_hang(&cmd, DEADLINE, GRACE) {
             Reply::Ok(s) => {
